@@ -106,7 +106,7 @@ type c12Op struct {
 	N   int     `json:"n"`
 }
 type c12Input struct {
-	Kind     string     `json:"kind"` // "pipe" | "queue"
+	Kind     string     `json:"kind"` // "pipe" | "queue" | "plugin" | "stress" (the last two: c12_plugin_test.go)
 	Flow     string     `json:"flow,omitempty"`
 	Items    []c12Item  `json:"items,omitempty"`
 	Workers  int        `json:"workers,omitempty"`
@@ -114,6 +114,12 @@ type c12Input struct {
 	RunFor   int64      `json:"runFor,omitempty"`   // virtual ns the flows run
 	Probes   []c12Probe `json:"probes,omitempty"`
 	Ops      []c12Op    `json:"ops,omitempty"`
+	// plugin cases
+	PItems    []c12PItem `json:"pitems,omitempty"`
+	Decoy     bool       `json:"decoy,omitempty"`     // build and close another instance on the same factory first
+	RetryTick int64      `json:"retryTick,omitempty"` // flows.RetryCheckInterval (ns), from the repository's constant
+	// stress cases
+	Stress *c12StressIn `json:"stress,omitempty"`
 }
 
 type c12QEv struct {
@@ -143,15 +149,17 @@ type c12Asked struct {
 	Err bool  `json:"err"`
 }
 type c12Impl struct {
-	Runs   []c12RunRec `json:"runs"`
-	Adds   []JCR       `json:"adds"`
-	View   []JCR       `json:"view"`
-	Props  []JProp     `json:"props"`
-	PView  []JProp     `json:"pview"`
-	Inelig []JCR       `json:"inelig"`
-	QLog   []c12QEv    `json:"qlog"`
-	Asked  []c12Asked  `json:"asked"`
-	Note   string      `json:"note,omitempty"`
+	Runs   []c12RunRec   `json:"runs"`
+	Adds   []JCR         `json:"adds"`
+	View   []JCR         `json:"view"`
+	Props  []JProp       `json:"props"`
+	PView  []JProp       `json:"pview"`
+	Inelig []JCR         `json:"inelig"`
+	QLog   []c12QEv      `json:"qlog"`
+	Asked  []c12Asked    `json:"asked"`
+	Note   string        `json:"note,omitempty"`
+	Plugin *c12PluginOut `json:"plugin,omitempty"`
+	Stress *c12StressOut `json:"stress,omitempty"`
 }
 
 // ---------------------------------------------------------------- recording decorators and fakes
@@ -384,6 +392,10 @@ func (c12All) OfInt(n int) int { return n }
 
 func c12Run(t *testing.T, in c12Input) c12Impl {
 	switch in.Kind {
+	case "plugin":
+		return c12RunPlugin(t, in)
+	case "stress":
+		return c12RunStress(t, in)
 	case "queue":
 		return c12RunQueue(t, in)
 	default:
@@ -932,6 +944,7 @@ func TestC12(t *testing.T) {
 		em.Hit(fmt.Sprintf("queue:ops=%d", c12Bucket(len(in.Ops))))
 		run("gen", in)
 	}
+	c12PluginAndStress(t, em, r, run)
 }
 
 func c12Bucket(n int) int {
